@@ -320,8 +320,9 @@ type buildOpts struct {
 	PreferIndex bool
 	LoadOnly    bool
 	GC          bool
-	SecondRun   bool // call Run twice on the same Project (as the REPL does)
-	DryThenNil  int  // 1: dry run then Run(label, nil) on the same Project; 2: with a Reload in between (as Watch does)
+	SecondRun   bool     // call Run twice on the same Project (as the REPL does)
+	Reuse       *Project // watch mode: Reload this Project instead of loading afresh
+	DryThenNil  int      // 1: dry run then Run(label, nil) on the same Project; 2: with a Reload in between (as Watch does)
 }
 
 // process runs one simulated dawn process: Load, then (optionally) GC and/or Run.
@@ -332,7 +333,14 @@ func (w *world) process(name string, pc procCfg, bo buildOpts, stepHook func(ste
 	w.chunkT = w.ctx.Tapes.Get(name + ".chunks")
 	res.Sim = s
 	s.Run(func() {
-		proj, err := Load(w.root, &LoadOptions{Args: bo.Args, Events: recEvents{w}, Builtins: w.builtins(), PreferIndex: bo.PreferIndex})
+		var proj *Project
+		var err error
+		if bo.Reuse != nil {
+			proj = bo.Reuse
+			err = proj.Reload()
+		} else {
+			proj, err = Load(w.root, &LoadOptions{Args: bo.Args, Events: recEvents{w}, Builtins: w.builtins(), PreferIndex: bo.PreferIndex})
+		}
 		res.LoadErr, res.Loaded, res.Proj = err, true, proj
 		if err != nil || bo.LoadOnly {
 			return
